@@ -29,7 +29,12 @@ class aggregate_node_transformer(ast.NodeTransformer):
     """
 
     def visit_Call(self, node):
-        if type(node.func) is ast.Name:
+        # Only the one-argument forms are shortcuts: `len(seq, x=1)` or `Sum(*seqs)` are calls
+        # with another number of arguments.
+        plain_arguments = len(node.keywords) == 0 and not any(
+            isinstance(a, ast.Starred) for a in node.args
+        )
+        if type(node.func) is ast.Name and plain_arguments:
             if (node.func.id == "len" or node.func.id == "Count") and (len(node.args) == 1):
                 # This is a len(sequence) call, which should be turned into a .Count() call.
                 return _generate_count_call(self.visit(node.args[0]))
